@@ -260,11 +260,137 @@ def panic_sites_section():
         raise TranslatorError(f"panic sites: {e}")
 
 
+# ---------------------------------------------------------------- plain tables (C09, C10, C15, C16)
+def coq_strs(names):
+    return "[" + "; ".join(coq_str(n) for n in names) + "]"
+
+
+def encode_sets():
+    """The AsciiSet constants of the three files that percent-encode, and every call site of utf8_percent_encode
+    (file, encoded expression, set) in source order."""
+    out = []
+    uses = []
+    for rel, tag in (("src/api/rule.rs", "rule"), ("src/http/query.rs", "query"), ("src/http/request.rs", "request")):
+        src = read(rel)
+        found = 0
+        for m in re.finditer(r"^const ([A-Z_]+): &AsciiSet = (.*);$", src, re.M):
+            name, rhs = m.group(1), m.group(2)
+            if rhs == "CONTROLS":
+                adds = []
+            else:
+                mm = re.fullmatch(r"&CONTROLS((?:\.add\(b'(?:[^'\\]|\\.)'\))+)", rhs)
+                if not mm:
+                    raise TranslatorError(f"{rel}: unexpected AsciiSet definition {m.group(0)!r}")
+                adds = [ord(unescape_rust(x)) for x in re.findall(r"\.add\(b'((?:[^'\\]|\\.))'\)", mm.group(1))]
+            out.append(f"Definition ext_{tag}_{name}_adds : list N := [" + ";".join(str(a) for a in adds) + "]%N.\n")
+            found += 1
+        if "AsciiSet" in src and not found:
+            raise TranslatorError(f"{rel}: AsciiSet is used but no constant definition matched")
+        if re.search(r"AsciiSet\s*=", src) and len(re.findall(r"AsciiSet = ", src)) != found:
+            raise TranslatorError(f"{rel}: an AsciiSet definition did not match the expected shape")
+        for m in re.finditer(r"utf8_percent_encode\(([^,()]*(?:\([^()]*\))?[^,()]*), ([A-Z_]+)\)", src):
+            uses.append((tag, m.group(1).strip(), m.group(2)))
+        if len(re.findall(r"utf8_percent_encode\(", src)) != sum(1 for u in uses if u[0] == tag):
+            raise TranslatorError(f"{rel}: a utf8_percent_encode call did not match the expected shape")
+    out.append("Definition ext_encode_uses : list (str * str * str) :=\n  [" +
+               ";\n   ".join(f"({coq_str(a)}, {coq_str(b)}, {coq_str(c)})" for a, b, c in uses) + "].\n")
+    return "".join(out)
+
+
+def void_elements():
+    src = read("src/filter/html_filter_body.rs")
+    m = re.search(r"pub static ref VOID_ELEMENTS: HashSet<&'static str> = \{\n\s*let mut set = HashSet::new\(\);\n(.*?)\n\s*set\n\s*\};", src, re.S)
+    if not m:
+        raise TranslatorError("VOID_ELEMENTS not found in src/filter/html_filter_body.rs")
+    names = []
+    for line in m.group(1).split("\n"):
+        line = line.strip()
+        if not line:
+            continue
+        mm = re.fullmatch(r'set\.insert\("((?:[^"\\]|\\.)*)"\);', line)
+        if not mm:
+            raise TranslatorError(f"VOID_ELEMENTS: unexpected line {line!r}")
+        names.append(unescape_rust(mm.group(1)))
+    return "Definition ext_void_elements : list str :=\n  " + coq_strs(names) + ".\n"
+
+
+def raw_text_tables():
+    src = read("src/html/mod.rs")
+    m = re.search(r"match context_tag\.as_str\(\) \{\n\s*((?:\"[a-z]+\"(?: \| )?)+) => \{\n\s*tokenizer\.raw_tag\.clone_from\(&context_tag\);\n\s*\}\n\s*_ => \{\}\n", src)
+    if not m:
+        raise TranslatorError("html/mod.rs: the raw-text list of Tokenizer::new_fragment was not found")
+    frag = re.findall(r'"([a-z]+)"', m.group(1))
+    m = re.search(r"match byte_char \{\n(.*?)\n\s*_ => \{\}\n\s*\}\n", src, re.S)
+    if not m:
+        raise TranslatorError("html/mod.rs: the per-letter raw-text dispatch of read_start_tag was not found")
+    arms = []
+    body = m.group(1)
+    pat = re.compile(r"\s*'(.)' => \{\n\s*raw = self\.start_tag_in\(vec!\[((?:\"[a-z]+\"\.to_string\(\)(?:, )?)+)\]\);\n\s*\}", re.S)
+    pos = 0
+    while True:
+        mm = pat.match(body, pos)
+        if not mm:
+            break
+        arms.append((ord(mm.group(1)), re.findall(r'"([a-z]+)"', mm.group(2))))
+        pos = mm.end()
+    if body[pos:].strip():
+        raise TranslatorError(f"html/mod.rs: unexpected arm in the raw-text dispatch: {body[pos:].strip()[:80]!r}")
+    m = re.search(r"self\.text_is_raw = ((?:self\.raw_tag != \"[a-z]+\"(?: && )?)+);", src)
+    if not m:
+        raise TranslatorError("html/mod.rs: the text_is_raw assignment was not found")
+    notraw = re.findall(r'"([a-z]+)"', m.group(1))
+    out = "Definition ext_fragment_raw_text : list str :=\n  " + coq_strs(frag) + ".\n"
+    out += "Definition ext_start_tag_raw_text : list (N * list str) :=\n  [" + "; ".join(f"({c}%N, {coq_strs(ns)})" for c, ns in arms) + "].\n"
+    out += "Definition ext_text_not_raw : list str :=\n  " + coq_strs(notraw) + ".\n"
+    return out
+
+
+def transformer_kinds():
+    src = read("src/api/transformer.rs")
+    m = re.search(r"Some\(kind\) => match kind\.as_str\(\) \{\n(.*?)\n                _ => None,\n", src, re.S)
+    if not m:
+        raise TranslatorError("api/transformer.rs: the kind dispatch of to_transform was not found")
+    kinds = re.findall(r'^                "([a-z_]+)" => ', m.group(1), re.M)
+    opts = re.findall(r'options\.contains_key\("([a-z_]+)"\)', m.group(1))
+    if not kinds:
+        raise TranslatorError("api/transformer.rs: no transformer kind found")
+    return ("Definition ext_transformer_kinds : list str :=\n  " + coq_strs(kinds) + ".\n" +
+            "Definition ext_transformer_option_keys : list str :=\n  " + coq_strs(opts) + ".\n")
+
+
+def html_visitor_names():
+    src = read("src/filter/html_body_action/mod.rs")
+    m = re.search(r"match filter\.action\.as_str\(\) \{\n(.*?)\n            _ => None,\n", src, re.S)
+    if not m:
+        raise TranslatorError("html_body_action/mod.rs: the action dispatch of HtmlBodyVisitor::new was not found")
+    arms = re.findall(r'^            "([a-z_]+)" => Some\(HtmlBodyVisitor::([A-Za-z]+)\(', m.group(1), re.M)
+    if not arms:
+        raise TranslatorError("html_body_action/mod.rs: no visitor arm found")
+    if "if filter.element_tree.is_empty() {\n            return None;" not in src:
+        raise TranslatorError("html_body_action/mod.rs: the empty element_tree guard was not found")
+    return ("Definition ext_html_visitors : list (str * str) :=\n  [" +
+            "; ".join(f"({coq_str(a)}, {coq_str(b)})" for a, b in arms) + "].\n")
+
+
+def marketing_defaults():
+    src = read("src/router_config.rs")
+    m = re.search(r"fn default_marketing_parameters\(\) -> HashSet<String> \{\n\s*let mut parameters = HashSet::new\(\);\n(.*?)\n\s*parameters\n\}", src, re.S)
+    if not m:
+        raise TranslatorError("router_config.rs: default_marketing_parameters not found")
+    names = re.findall(r'parameters\.insert\("([a-z_]+)"\.to_string\(\)\);', m.group(1))
+    return "Definition ext_default_marketing : list str :=\n  " + coq_strs(names) + ".\n"
+
+
+def tables_section():
+    return "\n".join([encode_sets(), void_elements(), raw_text_tables(), transformer_kinds(), html_visitor_names(), marketing_defaults()])
+
+
 SECTIONS = [
     ("Headers", ["RIO.Headers"], header_action_table),
     ("Encodings", [], supported_encodings),
     ("Serde", ["RIO.Json"], serde_schemas),
     ("PanicSites", [], panic_sites_section),
+    ("Tables", [], tables_section),
 ]
 
 
